@@ -75,6 +75,8 @@ class Explorer:
         self.branch_timeout_ms = branch_timeout_ms
         self.max_paths = max_paths
         self.speculative = 0
+        self.floor_cache_seed = {}
+        self.floor_cache = {}
         self.branch_rlimit = 4000000
         self.base_pc = []
         self.prefix = ''
@@ -97,6 +99,7 @@ class Explorer:
         self.pos = 0
         self.pc = list(self.base_pc)
         self.fresh_ctr = 0
+        self.floor_cache = dict(self.floor_cache_seed)
         self.notes = []
 
     def fresh_name(self, base):
